@@ -19,9 +19,9 @@ import (
 type Op struct {
 	Kind    string `json:"op"`
 	Branch  string `json:"branch,omitempty"`
-	N       int    `json:"n,omitempty"`      // load: batch size
-	Objs    []int  `json:"objs,omitempty"`   // indexes into the branch's sorted object list
-	Pred    string `json:"pred,omitempty"`   // delete-where
+	N       int    `json:"n,omitempty"`    // load: batch size
+	Objs    []int  `json:"objs,omitempty"` // indexes into the branch's sorted object list
+	Pred    string `json:"pred,omitempty"` // delete-where
 	Vectors bool   `json:"vectors,omitempty"`
 	Other   string `json:"other,omitempty"`  // merge: parent branch; branch-create: new name; pool ops: name
 	Commit  int    `json:"commit,omitempty"` // revert / branch-create: index into the acknowledged commit list (+1; 0 = none/empty)
@@ -852,6 +852,31 @@ func (r *SeqRun) RecheckOld(when string) *kernel.Violation {
 			return v
 		}
 		r.E.W.Out.Probe("old-commit-requeried")
+	}
+	// One long-lived reader: a single fresh handle (a process with its own
+	// caches, free to persist snapshot files like any client) reads every
+	// commit, newest first on odd rounds and oldest first on even ones, so
+	// that a commit is also read after its descendants and after its
+	// ancestors have been resolved in the same process.
+	h := r.E.W.Disk.NewHandle("reader", false)
+	rd, err := r.E.W.OpenOn(r.E.Ctx, h)
+	if err != nil {
+		return kernel.Violatef(r.Sig+":unreadable", "%s: a fresh reader cannot open the lake: %v", when, err)
+	}
+	order := append([]ksuid.KSUID(nil), r.Acked...)
+	if len(r.Acked)%2 == 1 {
+		for i, j := 0, len(order)-1; i < j; i, j = i+1, j-1 {
+			order[i], order[j] = order[j], order[i]
+		}
+	}
+	for _, c := range order {
+		if r.anyVacuumed(r.CObjs[c]) {
+			continue
+		}
+		if v := r.E.CheckScan(rd, r.PM, c.String(), r.usOf(r.CObjs[c]), r.Sig+":old-commit:warm-reader", fmt.Sprintf("%s, one reader process reading every commit in turn, now %s", when, c)); v != nil {
+			return v
+		}
+		r.E.W.Out.Probe("old-commit-requeried-by-long-lived-reader")
 	}
 	return nil
 }
